@@ -202,8 +202,8 @@ def unit_is(sim, prog, stx, unit_val, want):
     return bool(ex) and tuple(getattr(e, "val", None) for e in ex) == want
 
 
-def check_accessors(chk, prog, sim):
-    key = "A:command-tables"
+def check_accessors(chk, prog, sim, tag=""):
+    key = "A:command-tables" + tag
     chk.obligation(key, "Command constructor/accessors/conversions are mutually consistent")
     cty, pdty, qty = adt_ty(prog, "Command"), adt_ty(prog, "PositionDerivative"), Q.quantity_ty(prog)
     ok = True
@@ -343,6 +343,64 @@ def check_command_eq(chk, prog, sim, tag=""):
         chk.discharge(key)
 
 
+def check_two_command_api(chk, prog, sim, tag=""):
+    """Every exported fn that takes two Commands (by value or reference) combines or compares them: unless it is equality, it must
+    panic when the kinds differ - whatever it is called.  (An inherent `Command::add` shadows the checked operator for method-call
+    syntax; a helper `Command::max` orders a position against a velocity.)"""
+    key = "O:two-command-api" + tag
+    chk.obligation(key, "no exported fn combines two commands of different kinds without a panic" + tag)
+    cty = adt_ty(prog, "Command")
+    ok = True
+    n = 0
+
+    def is_c(t):
+        return ty_str(t) == "Command" or (t.get("k") == "ref" and ty_str(t["ty"]) == "Command")
+    for f in prog.facts["fns"]:
+        if f.get("kind") not in ("Fn", "AssocFn") or "body" not in f or not f.get("exported", True) or f.get("unsafe"):
+            continue
+        ins = f.get("sig_inputs", [])
+        if len(ins) != 2 or not all(is_c(t) for t in ins):
+            continue
+        tr = (f.get("impl_trait") or "").split("::")[-1]
+        if tr in ("PartialEq",):
+            continue
+        n += 1
+        chk.analysed(f["pretty"] + tag)
+        for k1 in KINDS:
+            for k2 in KINDS:
+                if k1 == k2:
+                    continue
+                st = S.State()
+                args = []
+                for nm, knd, t in (("x", k1, ins[0]), ("y", k2, ins[1])):
+                    v = sim.mk_enum(cty, knd, [Sym(nm, prim("f32"))])
+                    if t.get("k") == "ref":
+                        o = st.new_obj(nm, v)
+                        args.append(Ref(Ptr(o), bool(t.get("mut"))))
+                    else:
+                        args.append(v)
+                ls = sim.run(f, sim.identity_gargs(f), args, st)
+                chk.evaluated(len(ls), nontrivial=(key, f["pretty"], k1, k2))
+                if any(l.kind == "unsupported" for l in ls):
+                    chk.violation("analysis-incomplete", key + ":" + f["pretty"], "cannot model %s: %s" % (f["pretty"], [l.info.get("msg") for l in ls if l.kind == "unsupported"][:1]))
+                    ok = False
+                    break
+                if any(l.kind == "return" for l in ls):
+                    chk.violation("C14.O", "two-command-api:%s:%s:%s%s" % (f["pretty"], k1, k2, tag), "%s (%s) applied to %s(x) and %s(y) returns normally: commands of different kinds are combined without a panic"
+                                  % (f["pretty"], loc(f["span"]), k1, k2), fn=f["pretty"], file=loc(f["span"]))
+                    ok = False
+                    break
+            else:
+                continue
+            break
+    chk.extra["two_command_fns" + tag] = n
+    if n < 2:
+        chk.violation("floor", "C14.two-command-fns" + tag, "expected >= 2 exported fns with two Command operands (Add, Sub, their assign forms), found %d" % n)
+        ok = False
+    if ok:
+        chk.discharge(key)
+
+
 def check_arith(chk, prog, sim, tag=""):
     names = state_fields(prog)
     n = 0
@@ -445,6 +503,10 @@ def run(chk):
     before = len(chk.violations)
     check_command_eq(chk, p4, S.Sim(p4), "@K4")
     check_arith(chk, p4, S.Sim(p4), "@K4")
+    check_two_command_api(chk, p4, S.Sim(p4), "@K4")
+    # the kind / value / per-derivative accessor tables with the units compiled out: an accessor that re-derives the kind from a
+    # unit comparison answers for every kind there
+    check_accessors(chk, p4, S.Sim(p4), "@K4")
     for v in chk.violations[before:]:
         v["key"] += "@K4"
         v["what"] = "[dimension checking compiled out] " + v["what"]
@@ -453,6 +515,7 @@ def run(chk):
     chk.configs.append("K6")
     before = len(chk.violations)
     check_arith(chk, p6, S.Sim(p6), "@K6")
+    check_accessors(chk, p6, S.Sim(p6), "@K6")
     for v in chk.violations[before:]:
         v["key"] += "@K6"
         v["what"] = "[release profile] " + v["what"]
@@ -467,6 +530,7 @@ def run(chk):
     check_command_from_state(chk, prog, sim)
     check_accessors(chk, prog, sim)
     check_command_eq(chk, prog, sim)
+    check_two_command_api(chk, prog, sim)
     import rules.C01 as C01
     import report as _rp
     subc = _rp.Check("C14", chk.tier)
